@@ -44,6 +44,15 @@ static Args *AR;
 static unsigned stream_every = 1;
 static uint64_t stream_ctr = 0;
 static bool stream_now() { return stream_every && (stream_ctr++ % stream_every) == 0; }
+// --lite 1 (used for the ASan passes): cases whose export is longer than 50 000 characters are left to the plain flavour.
+// The library's field parser copies the remaining text once per field (quadratic), and ASan serves every copy above 256 KB
+// with a fresh mmap, which makes megabyte texts ~100x slower there without adding anything ASan could see.
+static bool lite = false;
+static bool lite_skip(const std::string &Tx)
+{
+	if (lite && Tx.size() > 50000) { R->counters["lite_skipped_large_text"]++; return true; }
+	return false;
+}
 
 static void at(const std::string &cid)
 {
@@ -343,6 +352,7 @@ template<class T> static void fam_qr(bool used_all)
 				std::string Tx = exp_text(orig);
 				check_overrun(*R, "mpz-operator<<", cid);
 				std::string ctx = "shape " + str(k) + "x" + str(w) + " pattern " + str(pattern);
+				if (lite_skip(Tx)) continue;
 				R->ok(D.fresh(fam, Tx));
 				// fresh targets
 				{ T fresh; qr_import_check(orig, Tx, fresh, 0, ctx + " into a fresh object", cid); }
@@ -542,6 +552,7 @@ template<class CardT> static void fam_stack_of(const std::string &enc, const std
 				if (st.size() != n) { R->viol("stack/push", ctx + ": push refused below TMCG_MAX_CARDS", cid); continue; }
 				std::string Tx = exp_text(st);
 				check_overrun(*R, "mpz-operator<<", cid);
+				if (lite_skip(Tx)) continue;
 				for (int mode = 0; mode < 2; mode++)
 				{
 					if (mode == 1 && (Tx.size() + 2 > TMCG_MAX_STACK_CHARS || !stream_now())) continue;
@@ -645,6 +656,7 @@ template<class SecT> static void fam_stacksecret_of(const std::string &enc, cons
 					if (st.size() != n) { R->viol("stacksecret/push", ctx, cid); continue; }
 					std::string Tx = exp_text(st);
 					check_overrun(*R, "mpz-operator<<", cid);
+					if (lite_skip(Tx)) continue;
 					for (int mode = 0; mode < 2; mode++)
 					{
 						if (mode == 1 && (Tx.size() + 2 > TMCG_MAX_STACK_CHARS || !stream_now())) continue;
@@ -896,6 +908,7 @@ int main(int argc, char **argv)
 	if (!A.only.empty() && (family == "stack" || family == "stacksecret"))
 		enc = A.only.find(":qr") != std::string::npos ? "qr" : "vtmf";
 	stream_every = (unsigned)A.geti("stream-every", 1);
+	lite = A.geti("lite", 0) != 0;
 	if (family == "mpz") { fam_mpz(); rep.bound = "every text length 1.." + str(MAXLEN) + " (min/max/seeded, both signs); 2^k+-1 at all limb boundaries up to 2^24400; boundary alphabet singly and in sequence"; }
 	else if (family == "qrcard") { fam_qr<TMCG_Card>(used == "all"); rep.bound = "all 320 shapes x 5-6 patterns; used targets: " + used; }
 	else if (family == "qrsecret") { fam_qr<TMCG_CardSecret>(used == "all"); rep.bound = "all 320 shapes x 5-6 patterns; used targets: " + used; }
@@ -914,6 +927,8 @@ int main(int argc, char **argv)
 	}
 	else if (family == "keys") { fam_keys(); rep.bound = "6 string variants x alphabet moduli; all pairs of Blum primes < 120 and 5 seeded primes; generated keys"; }
 	else { fprintf(stderr, "unknown family %s\n", family.c_str()); return 2; }
+	if (lite) // a second pass under ASan over grid points that the plain run of the same family covers completely: not a cap
+		rep.bound += "; lite pass: exports above 50000 characters are skipped (covered by the plain runs)";
 	if (family != "mpz" && stream_every != 1)
 		rep.bound += "; operator>> variant of a case on every " + str(stream_every) + "th occasion only (import(string) always)";
 	check_overrun(rep, "mpz-operator<<", "end-of-run");
